@@ -15,7 +15,7 @@
   `fstat`, access mode, here-document write, and the allocations at which EMFILE strikes), all
   tables (any descriptors open, any limit) and all redirection lists.
 -/
-import YashModel.Redir.Guard
+import YashModel.Redir.Internal
 import YashModel.Redir.World
 namespace YashModel.Redir
 open YashModel.Generated.RedirConsts
@@ -96,6 +96,26 @@ theorem command_restores (w : World) (t : FdTable) (k : Kind) (rs : List Redir) 
     cases he : (performRedirs worldOracle w t rs).err with
     | none => exact absurd he (h (.inr rfl))
     | some e => simp only; split <;> exact hu
+  | dot | dotMissing =>
+    simp only
+    cases he : (performRedirs worldOracle w t rs).err with
+    | some e => simp only; split <;> exact hu
+    | none =>
+      simp only
+      split
+      · next hnone =>
+        obtain ⟨hl, hN, _⟩ := openScript_spec worldOracle (performRedirs worldOracle w t rs).w
+          (performRedirs worldOracle w t rs).t _
+        exact (Equiv.undoRedirs ⟨hl, hN hnone⟩ _).trans hu
+      · next fd hsome =>
+        obtain ⟨hl, _, hS⟩ := openScript_spec worldOracle (performRedirs worldOracle w t rs).w
+          (performRedirs worldOracle w t rs).t _
+        obtain ⟨_, hfree, _, hframe⟩ := hS fd hsome
+        refine (Equiv.undoRedirs (a := FdTable.close _ fd) ⟨hl, fun fd' => ?_⟩ _).trans hu
+        simp only [FdTable.close, FdTable.get_put]
+        split
+        · next heq => rw [heq]; exact hfree.symm
+        · next hne => exact hframe fd' hne
   | special | colon | regular | func | brace | notFound | paren =>
     simp only
     cases he : (performRedirs worldOracle w t rs).err with
@@ -250,6 +270,52 @@ theorem cloexec_untouched (o : Oracle W) (w : W) (t : FdTable) (rs : List Redir)
 
 example : stdTable.isCloexec 1 = false ∧
     ((stdTable.put 10 (some ⟨0, true⟩)).isCloexec 10 = true) := by decide
+
+/-! ### descriptors the shell opens for itself outside the guard -/
+
+/-- ★ `move_fd_internal` on a descriptor below `MIN_INTERNAL_FD` never leaks: the original is closed
+    whether or not the dup to ≥ 10 succeeded (EMFILE included), nothing else changes, and a
+    successful move lands on a free slot at or above 10 with CLOEXEC -/
+theorem move_internal_never_leaks (o : Oracle W) (w : W) (t : FdTable) (src : Fd) (e : FdEntry)
+    (hsrc : t.get src = some e) (hlow : src < minInternalFd) :
+    (moveFdInternal o w t src).2.1.get src = none ∧
+    (moveFdInternal o w t src).2.1.limit = t.limit ∧
+    ((moveFdInternal o w t src).2.2 = none →
+      ∀ fd, fd ≠ src → (moveFdInternal o w t src).2.1.get fd = t.get fd) ∧
+    (∀ n, (moveFdInternal o w t src).2.2 = some n →
+      10 ≤ n ∧ t.get n = none ∧ (moveFdInternal o w t src).2.1.isCloexec n = true ∧
+      ∀ fd, fd ≠ src → fd ≠ n → (moveFdInternal o w t src).2.1.get fd = t.get fd) := by
+  obtain ⟨hl, _, hB⟩ := moveFdInternal_spec o w t src e hsrc
+  obtain ⟨h0, h1, h2⟩ := hB hlow
+  refine ⟨h0, hl, h1, fun n hn => ?_⟩
+  obtain ⟨a, b, c, d⟩ := h2 n hn
+  exact ⟨a, b, by simp [FdTable.isCloexec, c], d⟩
+
+/-- ★ the `.` built-in's descriptor: when the script cannot be opened — `open` fails, or the move to
+    ≥ 10 fails with EMFILE — the table is what it was; when it can, exactly one descriptor is
+    added, at or above 10 and CLOEXEC, and the `close` that follows the script gives back the table
+    it started from -/
+theorem dot_restores (o : Oracle W) (w : W) (t : FdTable) (path : Nat) :
+    ((openScript o w t path).2.2 = none →
+      (openScript o w t path).2.1.limit = t.limit ∧ ∀ fd, (openScript o w t path).2.1.get fd = t.get fd) ∧
+    (∀ n, (openScript o w t path).2.2 = some n →
+      10 ≤ n ∧ (openScript o w t path).2.1.isCloexec n = true ∧
+      (∀ fd, fd ≠ n → (openScript o w t path).2.1.get fd = t.get fd) ∧
+      ((openScript o w t path).2.1.close n).limit = t.limit ∧
+      ∀ fd, ((openScript o w t path).2.1.close n).get fd = t.get fd) := by
+  obtain ⟨hl, hN, hS⟩ := openScript_spec o w t path
+  refine ⟨fun h => ⟨hl, hN h⟩, fun n hn => ?_⟩
+  obtain ⟨a, b, c, d⟩ := hS n hn
+  refine ⟨a, c, d, hl, fun fd => ?_⟩
+  simp only [FdTable.close, FdTable.get_put]
+  split
+  · next heq => rw [heq]; exact b.symm
+  · next hne => exact d fd hne
+
+-- non-vacuity: limit 10 makes the move fail after the open succeeded on descriptor 3; limit 11 lets it through
+example : (openScript worldOracle (stdWorld false) { stdTable with limit := some 10 } 10).2.2 = none ∧
+    (openScript worldOracle (stdWorld false) { stdTable with limit := some 10 } 10).2.1.openFds = stdTable.openFds ∧
+    (openScript worldOracle (stdWorld false) { stdTable with limit := some 11 } 10).2.2 = some 10 := by decide
 
 /-! ### `exec` -/
 
